@@ -3641,7 +3641,13 @@ func (c *Call) String() string {
 	}
 
 	// Write function name and args.
-	return fmt.Sprintf("%s(%s)", c.Name, strings.Join(str, ", "))
+	// A name the scanner would not read as one bare identifier is quoted
+	// (distinct is the one keyword the parser itself reads as a function name).
+	name := c.Name
+	if name != "distinct" && IdentNeedsQuotes(name) {
+		name = QuoteIdent(name)
+	}
+	return fmt.Sprintf("%s(%s)", name, strings.Join(str, ", "))
 }
 
 // Distinct represents a DISTINCT expression.
